@@ -6,10 +6,11 @@ import cssselect2
 import tinycss2
 
 from ..logger import LOGGER
+from ..urls import URLFetchingError, fetch
 from .utils import parse_url
 
 
-def find_stylesheets_rules(tree, stylesheet_rules, url):
+def find_stylesheets_rules(url_fetcher, stylesheet_rules, url, imported=()):
     """Find rules among stylesheet rules and imports."""
     for rule in stylesheet_rules:
         if rule.type == 'at-rule':
@@ -18,11 +19,25 @@ def find_stylesheets_rules(tree, stylesheet_rules, url):
                 url_token = tinycss2.parse_one_component_value(rule.prelude)
                 if url_token.type not in ('string', 'url'):
                     continue
-                css_url = parse_url(urljoin(url, url_token.value))
-                stylesheet = tinycss2.parse_stylesheet(
-                    tree.fetch_url(css_url, 'text/css').decode())
-                url = css_url.geturl()
-                yield from find_stylesheets_rules(tree, stylesheet, url)
+                css_url = parse_url(urljoin(url, url_token.value)).geturl()
+                if css_url in imported:
+                    LOGGER.warning('Recursive @import of %s ignored', css_url)
+                    continue
+                try:
+                    with fetch(url_fetcher, css_url) as result:
+                        if 'string' in result:
+                            css = result['string']
+                        else:
+                            css = result['file_obj'].read()
+                except URLFetchingError as exception:
+                    LOGGER.error(
+                        'Failed to load stylesheet at %s: %s', css_url, exception)
+                    continue
+                stylesheet, _ = tinycss2.parse_stylesheet_bytes(
+                    css, protocol_encoding=result.get('encoding'),
+                    skip_comments=True, skip_whitespace=True)
+                yield from find_stylesheets_rules(
+                    url_fetcher, stylesheet, css_url, (*imported, css_url))
             # TODO: support media types
             # if rule.lower_at_keyword == 'media':
         elif rule.type == 'qualified-rule':
@@ -49,7 +64,7 @@ def parse_declarations(input):
     return normal_declarations, important_declarations
 
 
-def parse_stylesheets(tree, url):
+def parse_stylesheets(tree, url, url_fetcher):
     """Find stylesheets and return rule matchers in given tree."""
     normal_matcher = cssselect2.Matcher()
     important_matcher = cssselect2.Matcher()
@@ -70,7 +85,7 @@ def parse_stylesheets(tree, url):
 
     # Parse rules and fill matchers
     for stylesheet in stylesheets:
-        for rule in find_stylesheets_rules(tree, stylesheet, url):
+        for rule in find_stylesheets_rules(url_fetcher, stylesheet, url):
             normal_declarations, important_declarations = parse_declarations(
                 rule.content)
             try:
